@@ -16,6 +16,7 @@ pub mod proc;
 pub mod c08;
 pub mod c08b;
 pub mod cycle;
+pub mod c11;
 
 use report::{Evidence, Violation};
 
@@ -33,10 +34,12 @@ pub fn intercept() -> bool {
         return false;
     }
     util::install_panic_hook();
+    proc::init_process_limits();
     let code = match args.get(2).map(|s| s.as_str()) {
         Some("check") => cmd_check(&args[3..]),
         Some("replay") => cmd_replay(&args[3..]),
         Some("gen") => cmd_gen(&args[3..]),
+        Some("bench-spawn") => cmd_bench_spawn(&args[3..]),
         _ => {
             eprintln!("usage: fml verif check <ID> --tier quick|thorough | replay <file> | gen --case N");
             2
@@ -68,6 +71,7 @@ fn cmd_check(args: &[String]) -> i32 {
     println!("fmlsim: property={} tier={} VERIF_SEED={} workers={}", id, tier, seed, util::workers());
     match id.as_str() {
         "C08" => check_c08(seed, tier),
+        "C11" => check_c11(seed, tier),
         "C03" => check_cycle(cycle::Which::C03, seed, tier),
         "C04" => check_cycle(cycle::Which::C04, seed, tier),
         other => {
@@ -123,6 +127,25 @@ fn check_cycle(which: cycle::Which, seed: u64, tier: &str) -> i32 {
     report::finish(ev, violations)
 }
 
+fn check_c11(seed: u64, tier: &str) -> i32 {
+    let mut ev = Evidence::new(
+        "C11", tier, seed, "exploration",
+        "per source program one baseline observation (parse -> compile -> run + execute with --heap-log, each a real child process under the shim) and          N observations under entropy tuples drawn from the case seed: hash seed (getrandom), scripted wall clock (steady, stalled, backward/forward jumps,          far future), heap layout (seeded junk allocations), environment block, ASLR on/off, input via file or stdin, argv0, cwd depth, debug/release build;          plus three in-process compilations in fresh threads. Every observation differs from the baseline in at least one declared entropy source, so every          evaluation is non-trivial; distinct = distinct (source digest, tuple).",
+    );
+    ev.assumptions = vec![
+        "entropy reaches the process only through getrandom, the wall clock, the address-space layout, the environment, argv and cwd (FML has no threads, signals or network)".into(),
+        "stderr is compared only as empty/non-empty (it carries a thread id)".into(),
+        "ASLR-on tuples are an uncontrolled witness: a difference found only there would still replay with high probability, not certainty".into(),
+    ];
+    need_shim();
+    let violations = c11::run(seed, tier, &mut ev);
+    ev.extra.insert("components".into(), serde_json::json!({
+        "real": ["the unmodified fml CLI (parse, compile, run, execute) as child processes, debug and release builds", "kernel files"],
+        "stub": ["libfmlsim.so: getrandom (hash seed), clock_gettime (scripted clock), junk allocations", "personality(ADDR_NO_RANDOMIZE), scrubbed environment"],
+    }));
+    report::finish(ev, violations)
+}
+
 fn cmd_replay(args: &[String]) -> i32 {
     let path = match args.first() {
         Some(p) => p,
@@ -151,6 +174,7 @@ fn cmd_replay(args: &[String]) -> i32 {
     let result = match engine {
         c08::ENGINE_A => c08::replay(&replay),
         cycle::ENGINE => cycle::replay(&replay),
+        c11::ENGINE => { need_shim(); c11::replay(&replay) }
         c08b::ENGINE_B => { need_shim(); c08b::replay(&replay) }
         other => Err(format!("unknown engine `{}`", other)),
     };
@@ -179,5 +203,27 @@ fn cmd_gen(args: &[String]) -> i32 {
     let p = gen::generate(&mut rng, &cfg);
     print!("{}", p.source());
     eprintln!("// allocs={:?} cfg={:?}", p.allocs(), cfg);
+    0
+}
+
+fn cmd_bench_spawn(args: &[String]) -> i32 {
+    let n: usize = arg_value(args, "--n").and_then(|s| s.parse().ok()).unwrap_or(2000);
+    let profile = if args.iter().any(|a| a == "--debug") { proc::Profile::Debug } else { proc::Profile::Release };
+    let shim = !args.iter().any(|a| a == "--no-shim");
+    let start = std::time::Instant::now();
+    let results = util::par_map(n, |i| {
+        let dir = proc::scratch_dir();
+        std::fs::write(dir.join("p.fml"), "print(\"probe ~\\n\", 1 + 2)\n").unwrap();
+        let mut c = proc::Child::new(profile, &["run", "p.fml"]);
+        if shim {
+            c.shim = Some(proc::ShimCfg { seed: i as u64, plan: String::new(), clock: None, junk: 0, budget: None });
+        }
+        let r = proc::run_child(&dir, &c);
+        let _ = std::fs::remove_dir_all(&dir);
+        r.exit == proc::Exit::Code(0)
+    });
+    let ok = results.iter().filter(|b| **b).count();
+    let dt = start.elapsed().as_secs_f64();
+    println!("{} children, {} ok, {:.2} s, {:.0} children/s", n, ok, dt, n as f64 / dt);
     0
 }
